@@ -156,6 +156,15 @@ def make_tasks(W, quick, rng):
             tasks.append(dict(name='twin/c%sx/%s/%d/w%d' % (op, op, c, W), W=W, bind={'y': c & ((1 << (8 * W)) - 1)},
                               csrc='empty @is_you(int x) { %s }\n' % obs('%s %s x' % (L, op), is_b(op)),
                               vsrc='empty @is_you(int x, int y) { %s }\n' % obs('y %s x' % op, is_b(op))))
+    # a byte operand against a literal: the literal may be narrowed to byte only if that cannot change the result
+    for op in OPS:
+        for c in [0, 1, 2, 127, 128, 253, 254, 255, 256, 257, -1, -2, -255, -256]:
+            if quick and c in (2, 253, 257, -2) and op not in ('<', '<=', '>', '>='):
+                continue
+            L = lit(c, W)
+            tasks.append(dict(name='twin/byte-b%sc/%s/%d/w%d' % (op, op, c, W), W=W, bind={'y': c & ((1 << (8 * W)) - 1)},
+                              csrc='empty @is_you(byte b) { byte e = b; %s %s }\n' % (obs('b %s %s' % (op, L), is_b(op)), obs('%s %s e' % (L, op), is_b(op))),
+                              vsrc='empty @is_you(byte b, int y) { byte e = b; %s %s }\n' % (obs('b %s y' % op, is_b(op)), obs('y %s e' % op, is_b(op)))))
     # const variables and const globals instead of literals
     for op in OPS[:5]:
         for c in G[::3]:
